@@ -72,7 +72,7 @@ theorem newWindow_step (content : Id → Int → Int → Cell) (screen : Int →
     (rect : Rect) (rootParent hidden lowest steal : Bool) (hI : TInv content screen t)
     (h : newWindow t (t.wins.size + 1) parent rect rootParent hidden lowest steal = .ok (t', id)) :
     TInv content screen t' ∧ RootStep t t' ∧ t'.wins.size = t.wins.size + 1 ∧ id = t.wins.size ∧
-      (ParentListed t → ParentListed t') := by
+      (ParentListed t → ParentListed t') ∧ RectsKept t t' := by
   obtain ⟨p, r, ppw, hgp, hid, hd⟩ := newWindow_shape t t' _ parent id rect rootParent hidden lowest steal h
   have hppw := get_ok hgp
   have hplt : @LT.lt Nat _ p t.wins.size := lt_size_of_some hppw.1
@@ -176,11 +176,14 @@ theorem newWindow_step (content : Id → Int → Int → Cell) (screen : Int →
         else pure (WinTree.set t1 p { ppw with children := cs })) = .ok t' →
       t.wins.size ∈ cs →
       TInv content screen t' ∧ RootStep t t' ∧ t'.wins.size = t.wins.size + 1 ∧ id = t.wins.size ∧
-        (ParentListed t → ParentListed t') := by
+        (ParentListed t → ParentListed t') ∧ RectsKept t t' := by
     intro cs hfilter hnd hh hcm
     obtain ⟨a1, a2, a3, a4⟩ := relist_step content screen t1 t' p t.wins.size ppw w0 cs (t.wins.size + 1) hI1 (by omega) h1_p h1_new
       (Nat.ne_of_lt hplt) (Nat.ne_of_gt h0lt) honly hfilter hnd (fun _ => ⟨hw0f.1, hw0f.2.1, hplt⟩) hh
-    refine ⟨a1, ?_, by rw [a3, set_size, h1_size], hid, fun hpl => a4 ?_ ?_⟩
+    refine ⟨a1, ?_, by rw [a3, set_size, h1_size], hid, fun hpl => a4 ?_ ?_, ?_⟩
+    rotate_right
+    · intro x w hw
+      exact rectsKept_relist t1 t' p ppw cs h1_p a3 x w (by rw [h1_old x (lt_size_of_some hw)]; exact hw)
     · rcases a2 with a2 | ⟨x, y, z⟩
       · exact Or.inl (by rw [a2, h1_root])
       · exact Or.inr ⟨x, y, by rw [z, h1_root]⟩
